@@ -33,6 +33,10 @@ def long_inputs(rng: random.Random):
                 "$[?" + "count(" * min(n, 32) + "@.*" + ")" * min(n, 32) + " == 1]", "$[?" + "@.a && " * min(n, 140) + "@.b]",
                 "$[?" + "@.a || " * min(n, 140) + "@.b]", "$[" + "0," * min(n, 500) + "0]", "$[?" + "@[?" * min(n, 32) + "@.a" + "]" * min(n, 32) + "]",
                 "$[?@.a == '" + "x" * n + "']", "$[" + " " * n + "0]", "$" + "[" * n, "$" + "]" * n, "$[?" + "(" * n, "$[?" + ")" * n,
+                # MALFORMED string literals with a long run of ordinary characters before the defect (a scanner that backtracks over
+                # the run is exponential in its length): unclosed, unknown escape, the other quote escaped, a raw control character
+                "$['" + "x" * n, "$['" + "x" * n + "\\q']", "$['" + "x" * n + "\\\"']", "$[\"" + "x y" * (n // 3 + 1) + "\\'\"]", "$['" + "x" * n + "\t']",
+                "$[?@.a == '" + "ab" * (n // 2 + 1) + "\n']", "$[?@ == \"" + "x" * n + "\\u12\"]", "$['" + "x" * n + "\\ud800']", "$['" + "é😀" * (n // 2 + 1) + "\\",
                 "$[?length(" * min(n, 32) + "@" + ")" * min(n, 32) + " == 1]", "$[?match(@, '" + "(" * min(n, 32) + "a" + ")" * min(n, 32) + "')]",
                 "$[?match(@, '" + "a*" * min(n, 400) + "b')]", "$[?search(@, '" + "[" * n + "')]", "$[?@ == " + "-" * n + "1]"]
     return [s[:1024] for s in out]
@@ -95,7 +99,7 @@ def run(chk: core.Check, tier: str, seed: int) -> None:
             d = [d] if (kind == "arr" or (kind == "mix" and i % 2)) else {"a": d}
         return d
 
-    for n in (400, 600, 900):
+    for n in (400, 600, 900, 2000, 3500):
         for kind in ("arr", "obj", "mix"):
             doc = [{"a": _deep(n, 1, kind), "b": _deep(n, 1, kind), "c": _deep(n, 2, kind), "d": _deep(n, 1.0, kind)}, {"a": _deep(n, 1, kind)}]
             for q in ("$[?@.a == @.b]", "$[?@.a != @.c]", "$[?@.a == @.d]", "$[?value(@.a) == value(@.b)]", "$[?length(@.a) >= 1]", "$[?count(@.*) > 1]",
